@@ -22,6 +22,7 @@ import r_family
 import r_rngprov
 import r_dispatch
 import r_range
+import r_valcheck
 import witness
 
 
@@ -159,6 +160,8 @@ def c06(facts, tier):
     n = r_meta.check_forms(meta_engines(facts), rep, r_forms.families(facts))
     rep.floor("R-METAFLOW(forms)", "(scheme, family) pairs compared", n, 60)
     repstate(facts, rep, ents, 400)
+    n = r_valcheck.run(facts, rep)
+    rep.floor("R-VALCHECK", "ValCheck implementations inspected", n, 12)
     witness.run(rep, facts.repo, doc_tests=(tier == "thorough"))
     return rep
 
